@@ -27,7 +27,19 @@ ASSUMPTIONS = ["std::chrono of libstdc++ 12 validates the Lean calendar spec (R2
 TRUSTED = ["translator gen/translate.py (clang-16 JSON AST -> Lean), validated on every run by running the generated functions against the compiled C++",
            "CSem.mkDur (duration's converting constructor) and comparison operators of one-field value classes are modelled by hand"]
 SEARCH_CAP = 800000
-THEOREMS = {}
+THEOREMS = {
+    "civil": ["Tetl.C11.Props.round_trip", "Tetl.C11.Props.succ", "Tetl.C11.Props.anchor", "Tetl.C11.Props.civil_eq_range",
+              "Tetl.C11.Props.civil_valid", "Tetl.C11.Props.civil_no_ub", "Tetl.C11.Props.gregorian_forward", "Tetl.C11.Props.gregorian_backward"],
+    "days": ["Tetl.C11.Props.round_trip_inv", "Tetl.C11.Props.days_eq_counting"],
+    "weekday": ["Tetl.C11.Props.weekday_eq", "Tetl.C11.Props.weekday_no_ub"],
+    "ok": ["Tetl.C11.Props.ok_iff"], "is_leap": ["Tetl.C11.Props.is_leap_eq"], "last_day": ["Tetl.C11.Props.last_day_eq"],
+    "month_plus": ["Tetl.C11.Props.month_plus_eq", "Tetl.C11.Props.month_plus_no_ub"], "month_diff": ["Tetl.C11.Props.month_diff_eq"],
+    "ym_plus": ["Tetl.C11.Props.year_month_plus_eq"], "year_plus": ["Tetl.C11.Props.year_plus_eq"],
+    "wd_plus": ["Tetl.C11.Props.weekday_plus_eq"], "wd_minus": ["Tetl.C11.Props.weekday_minus_eq"],
+    "wd_add_assign": ["Tetl.C11.Props.weekday_add_assign_eq"], "wd_sub_assign": ["Tetl.C11.Props.weekday_sub_assign_eq"],
+    "wd_diff": ["Tetl.C11.Props.weekday_diff_eq"],
+    "incdec": ["Tetl.C11.Props.month_plus_eq", "Tetl.C11.Props.weekday_plus_eq", "Tetl.C11.Props.weekday_minus_eq"],
+}
 
 LO, HI = -12687428, 11248737          # -32767-01-01 .. 32767-12-31
 
@@ -61,7 +73,7 @@ def generate(tier, seed):
         dist[tag] = dist.get(tag, 0) + 1
 
     zs = set()
-    for era in range(-87, 78):
+    for era in range(-83, 83):
         base = era * 146097 - 719468
         for off in (-2, -1, 0, 1, 2, 36523, 36524, 36525, 1459, 1460, 1461, 365, 366, 58, 59, 60, 146095, 146096):
             zs.add(base + off)
@@ -119,10 +131,27 @@ def generate(tier, seed):
                 add("ymwl_days y=%d m=%d w=%d" % (y, m, w), "ymwl_days")
                 for i in range(1, 6):
                     add("ymw_days y=%d m=%d w=%d i=%d" % (y, m, w, i), "ymw_days")
-    for y in (-32767, -1, 0, 2000, 32767):
-        for k in (-5, -1, 0, 1, 5, 100):
+    for y in (-32767, -32000, -401, -1, 0, 1, 1999, 2000, 2024, 32000, 32767):
+        for k in (-64000, -500, -5, -1, 0, 1, 4, 5, 100, 400, 64000):
             if -32767 <= y + k <= 32767:
                 add("year_plus y=%d k=%d" % (y, k), "year_plus")
+        for b in (-32767, -1, 0, 1970, 32767):
+            add("year_diff a=%d b=%d" % (y, b), "year_diff")
+        if -32767 < y < 32767:
+            add("incdec what=year v=%d" % y, "incdec")
+    for v in range(1, 13):
+        add("incdec what=month v=%d" % v, "incdec")
+    for v in range(0, 7):
+        add("incdec what=weekday v=%d" % v, "incdec")
+    for v in range(1, 32):
+        add("incdec what=day v=%d" % v, "incdec")
+    for y in (-32768, -32767, 0, 2023, 2024, 32767):
+        for m in range(0, 14):
+            for d in (0, 1, 28, 29, 30, 31, 32):
+                for w in (0, 3, 6, 7, 8):
+                    for i in (0, 1, 5, 6):
+                        if thorough or (y in (2023, -32768) or (d == 29 and w == 3)):
+                            add("oks y=%d m=%d d=%d w=%d i=%d" % (y, m, d, w, i), "oks")
     for w in range(0, 7):
         for k in list(range(-20, 21)) + [-700, 700, 1000, -1000, 2 ** 31 - 8, -(2 ** 31) + 8]:
             for op in ("wd_plus", "wd_minus", "wd_add_assign", "wd_sub_assign"):
@@ -155,7 +184,16 @@ LEVEL_TEXT = ("The calendar kernels (civil_from_days, days_from_civil, weekday_f
               "The generated functions are also executed against the compiled C++ and std::chrono on ~2e5 inputs per run.")
 LEVEL_NOTE = ("Trusted: Lean kernel + propext/Classical.choice/Quot.sound; gen/translate.py and clang-16's AST; g++-12; libstdc++ chrono "
               "as oracle for the spec. The in-era part of the bijection is a kernel-evaluated finite check over all 146097 days of "
-              "an era (decide +kernel, complete domain), lifted to all days by the proved era decomposition.")
+              "an era (decide +kernel, complete domain) of hand-written Nat twins (TetlProofs/C11/EraDefs.lean) of the in-era "
+              "formulas; bridge lemmas (Civil.lean) tie the twins to the generated Int definitions, and the proved era decomposition "
+              "lifts the result to all days. A regenerated body of a different shape breaks the bridge (reported as a broken obligation).")
 CORRESPONDENCE_ONLY = ["year_month_weekday <-> sys_days, year_month_weekday::ok, year_month_weekday_last -> sys_days, "
                        "year_month_day_last -> sys_days (ops ymw, ymw_days, ymwl_days): implementation compared with the Lean "
-                       "calendar spec and with std::chrono; no generated model / theorem yet"]
+                       "calendar spec and with std::chrono; no generated model / theorem yet",
+                       "ok() of month_day, weekday_indexed, month_weekday, month_weekday_last, year_month, year_month_day_last, "
+                       "month_day_last (op oks); ++/-- of day and year, weekday::iso_encoding, year - year (ops incdec, year_diff): "
+                       "compared with the spec and std::chrono only (++/-- of month and weekday run through the generated "
+                       "month_plus / weekday_plus / weekday_minus)",
+                       "that the +/- months / years operators of year_month_day, year_month_day_last, year_month_weekday, "
+                       "year_month_weekday_last (all operand orders, +=, -=) forward to year_month + months / year + years and keep "
+                       "the day / weekday / index fields: checked by the harness on every ym_plus / year_plus line, not proved"]
